@@ -25,6 +25,7 @@ import (
 	"github.com/conduitio/conduit-connector-protocol/pconnector"
 	"github.com/conduitio/conduit/pkg/foundation/cerrors"
 	"github.com/conduitio/conduit/pkg/foundation/log"
+	"github.com/conduitio/conduit/pkg/foundation/verifhook"
 	"github.com/conduitio/conduit/pkg/plugin"
 	connectorPlugin "github.com/conduitio/conduit/pkg/plugin/connector"
 )
@@ -531,6 +532,7 @@ func (s *Source) Ack(ctx context.Context, p []opencdc.Position) error {
 		return cerrors.Errorf("source stream not open: %w", connectorPlugin.ErrStreamNotOpen)
 	}
 
+	verifhook.Point("connector.source.ack")
 	// lock as we are updating the state and leave it locked so the persister
 	// can safely prepare the connector before it stores it
 	s.Instance.Lock()
